@@ -132,8 +132,8 @@ def main(run):
     # the accessor tables are known only after `shoot new` ran: cases are generated now (they only need the types)
     for p in pairs:
         p.cases = c05.gen_cases(run, p.spec, 4 if run.thorough() else 3, [0.0, 0.3, 0.6])
-    mh.execute(run, pairs, shoot=shoot, par=6, tag="c15", pre=pre_shootnew)
-    verdicts, guards = mh.coq_verdicts(run, pairs, tag="c15", shard_cases=120, par=6, fn="mismatches15", guard="pair_guard15")
+    mh.execute(run, pairs, shoot=shoot, par=4, tag="c15", pre=pre_shootnew)
+    verdicts, guards = mh.coq_verdicts(run, pairs, tag="c15", shard_cases=120, par=4, fn="mismatches15", guard="pair_guard15")
     c05.report(run, pairs, verdicts, guards,
                "C15_ctor_args / C15_setters_once / C15_plain_equivalent",
                "L2:C15:generated ToX/FromX over shoot-new types vs Model/Mapper.v+MapperEval.v")
@@ -190,7 +190,7 @@ def finding_handlers(run, shoot):
         return mh.witness_outcome(run, shoot, f)
     h = {k: generic for k in ("K_map_setonly_read", "K_map_ctor_func_nil_receiver", "K_map_ctor_ptr_conv",
                               "K_map_ctor_arg_unguarded", "K_map_dash_accessor", "K_map_ctor_from_tag",
-                              "K_map_ctor_priority", "K_map_ctor_no_submap")}
+                              "K_map_ctor_priority", "K_map_ctor_no_submap", "K_map_ctor_func_last")}
     h["K_map_state_leak"] = lambda f: mh.state_leak_outcome(run, shoot, f)
     return h
 
